@@ -47,7 +47,12 @@ def run(ctx):
             nbad += 1
             if nbad <= 20:
                 ctx.violation("bytes(Subroutine) differ from the reference encoding", bad, key=None)
-    mism = cc.correspond(ctx, impl, cases, [], oracle=True)
+    # decode side too: malformed byte strings first (a decoder that keeps state across calls is poisoned by them),
+    # then the round-trip oracle on every case
+    dcases = cc.gen_dcases(ctx, impl, 60 if ctx.tier == "quick" else 1500)
+    for fname, raw in dcases[: len(dcases) // 2]:
+        impl.run_dcase(fname, raw)
+    mism = cc.correspond(ctx, impl, cases, dcases, oracle=True)
     if mism and not ctx.violations:
         ctx.broken.append(f"correspondence Codec.encode_sub vs bytes(Subroutine): {len(mism)} differing cases, "
                           f"first: {str(mism[0])[:300]}")
